@@ -35,6 +35,11 @@ CLAIMED = {
   text="Decides for every change set: in the MySQL/PostgreSQL ALTER TABLE builders no case of the change switch can complete without recording a reverse change or updating the reversible flag; the recorded reverse is of the inverse kind with From/To swapped / same payload; the reverse statement is built only under the flag and after the recorded changes were reversed; Plan.Reversible is computed by SetReversible over all changes on every success path and nobody else can set it to true; every down template ranges over `rev .Changes` printing all ReverseStmts. This is the clause 'a plan containing an irreversible change is never reported reversible' and 'the down file contains exactly those reverse statements in that order' at the structural level.",
   note="Not decided: that the reverse SQL text composes to an inverse on an engine; reverse statements of non-ALTER changes (create/drop table, index statements) are checked only for presence via SetReversible. ",
   ref="DESIGN.md §3 C17"),
+ "C08": dict(
+  technique="static analysis: field-store shape enumeration (who-may-write + accepted shapes) for the scanner cursors, go/cfg pairing rule for nested scanners, anchor/advance agreement lint",
+  text="Decides that the scanner's cursor invariant total == len(src)-len(input)+pos is preserved by every store in the package (closed set of shapes; anything else fails), that every advance after a look-behind match equals matched-length minus look-behind, that nested scanners start at input[pos:] and their consumed bytes are added back on every success path, that Stmt.Pos is total-len(text) and that the lint consumer indexes the same string. Position accuracy is exactly this invariant; a shape rule decides it for all inputs where a test compares statement texts only.",
+  note="Not decided: termination/totality on arbitrary bytes, losslessness beyond the cursor invariant, regexp semantics. Shapes other than the canonical ones are reported as not recognised (fail) rather than guessed. ",
+  ref="DESIGN.md §3 C08"),
 }
 
 NA = {}
